@@ -599,6 +599,7 @@ func init() {
 			{HdrProfile{"http://example.com/psa/hdr-named", 4}, "*props.HdrClaims", "eat-profile", 2, true},
 			{ExtP1NoClaimProfile{"http://example.com/psa/p1-without-claim"}, "*props.ExtP1Claims", "psa-profile", 1, false},
 			{OwnTagProfile{"http://example.com/psa/own-tag"}, "*props.OwnTagClaims", "own-profile", 2, true},
+			{ExtP1With265Profile{}, "*props.ExtP1With265Claims", "eat-profile", 1, false},
 		}
 		return func(c *choice.Ctx) {
 			psatoken.VerifRegistryRestore(initial)
